@@ -1370,6 +1370,17 @@ def run_large_sidefiles(case):
             system = st.load_rdsystem(os.path.join("model", "system.json") if r.random() < 0.5 else jpath)
         finally:
             os.chdir(cwd)
+        # the reader of such side files on its own, on a file of 250 000 - 400 000 entries: same values, and it returns within
+        # this workload's CPU budget (it needs well under a second; a reader that is quadratic in the file length does not)
+        from strengths import text_array_rw
+        nbig = r.choice([250000, 400000])
+        bigvals = [r.randrange(3) for _ in range(1000)] * (nbig // 1000)
+        with open(os.path.join(sub, "arrays/big.txt"), "w") as f:
+            f.write(("\n" if r.random() < 0.6 else " ").join(str(v) for v in bigvals))
+        gotbig = [int(x) for x in text_array_rw.load_1D_array_txt(os.path.join(sub, "arrays/big.txt"), int)]
+        counts["large_sidefile_entries"] = counts.get("large_sidefile_entries", 0) + nbig
+        if gotbig != bigvals:
+            bad.append({"what": "large side file: the text reader does not return the values in the file", "entries_in_file": nbig, "entries_read": len(gotbig), "case": case})
         got_env = [int(x) for x in system.space.get_cell_env_array()]
         got_ch = [int(bool(x)) for x in system.chemostats]
         for name, got, want in (("cell_env", got_env, cell_env), ("chemostats", got_ch, chst)):
@@ -1471,7 +1482,7 @@ def main():
     _run_extra(run, "vf.history:h_traj_system_vs_script", [{"seed": _seed(), "idx": _i} for _i in range(640 if _tier() == "thorough" else 64)], cpu_budget=60, kind_prefix="history: ")
     _run_extra(run, "vf.history:h_traj_names", [{"seed": _seed(), "idx": _i} for _i in range(480 if _tier() == "thorough" else 48)], cpu_budget=60, kind_prefix="history: ")
     from vf.sandbox import run_extra as _rx9
-    _rx9(run, "vf.checks.c12:run_large_sidefiles", [{"seed": seed(), "idx": _i} for _i in range(40 if tier() == "thorough" else 6)], cpu_budget=300)
+    _rx9(run, "vf.checks.c12:run_large_sidefiles", [{"seed": seed(), "idx": _i} for _i in range(40 if tier() == "thorough" else 6)], cpu_budget=90)
     run.require("large_sidefile_entries")
     # a key left out of a dictionary means the constructor's documented default, in the object's own units (vf/history.py)
     from vf.sandbox import run_extra as _rxd
